@@ -19,7 +19,7 @@ typedef struct S_struct_gdstk__OasisStream Stream;
 int main(void) {
   uint8_t* buf = malloc(BUF);
   memset(buf, 0xA5, BUF);         /* stale bytes with continuation bit set: a reader that runs on is caught */
-  Stream out; memset(&out, 0, sizeof out); out.f1 = buf; out.f2 = buf; out.f3 = BUF;
+  Stream out = {0}; out.f1 = buf; out.f2 = buf; out.f3 = BUF;
   uint64_t x = 0, y = 0, rx = 0, ry = 0;
 #if OP == 0      /* unsigned */
   x = nd_u64();
@@ -43,7 +43,7 @@ int main(void) {
 #endif
   uint64_t written = (uint64_t)(out.f2 - buf);
   CHECK(out.f1 == buf && written >= 1 && written <= 20, "writer stayed inside its buffer");
-  Stream in; memset(&in, 0, sizeof in); in.f1 = buf; in.f2 = buf; in.f3 = BUF;
+  Stream in = {0}; in.f1 = buf; in.f2 = buf; in.f3 = BUF;
 #if OP == 0
   rx = R_UINT(&in);
 #elif OP == 1
